@@ -32,7 +32,7 @@ def run(ctx):
     # longer streams / bigger deliveries with the max_bytes reads followed by other kinds (no close ops)
     net_common.s2c_stream(ctx, "GenG_IOStreamStale.cfg", {"L": L}, variants[:1], label="s2c")
     ctx.cov["exhaustive"] = True
-    net_common.c2s_stream(ctx, "read", n=ctx.pick(300, 6000))
+    net_common.c2s_stream(ctx, "read", n=ctx.pick(150, 6000))
     ctx.cov["rule"] = ("paths: every sequence of read(kind)/deliver(chunk<=2 over {a,LF})/eof/close of length <= %d "
                        "through the TLC state graph, each replayed under %d transport variants; plus seeded random "
                        "recorded read programs validated by TLC; distinct = distinct (config, operation sequence, "
